@@ -9,6 +9,7 @@ import TgModel.Include
 import TgModel.SymbolMap
 import TgModel.Host
 import TgModel.Sched
+import TgModel.Session
 
 open Tg
 
@@ -186,6 +187,33 @@ def cmdSched (rest : String) : String :=
     s!"n={scheds.size} deadlocks={dead} " ++ " ".intercalate scheds.toList
   | _ => "bad-args"
 
+/-- `session <texts> <disk> <ops>`: texts as for `host`; disk `,`-separated `<path>:<text>` (or `.`);
+ops `;`-separated `<path>:<text>` (didOpen/didChange of that document with that text).
+The diagnostics of a file are modelled as "the id of the text that was analysed". -/
+def cmdSession (rest : String) : String :=
+  match rest.splitOn " " with
+  | [textsS, diskS, opsS] =>
+    let texts : Array (List Nat) := (textsS.splitOn ";").toArray.map fun row =>
+      if row.isEmpty || row == "." then [] else (row.splitOn ",").map (·.toNat!)
+    let env : Host.Env := { incs := fun t => texts.getD t [], resolve := fun fs _ n => if (fs n).isSome then some n else none }
+    let diskL : List (Nat × Nat) := if diskS == "." then [] else (diskS.splitOn ",").filterMap fun e =>
+      match e.splitOn ":" with | [p, t] => some (p.toNat!, t.toNat!) | _ => none
+    let disk : Host.Fs := fun p => (diskL.lookup p)
+    let ops : List (Nat × Nat) := (opsS.splitOn ";").filterMap fun e =>
+      match e.splitOn ":" with | [p, t] => some (p.toNat!, t.toNat!) | _ => none
+    let diag : Session.DiagFn Nat := fun o f =>
+      match (o.files.zip o.contents).lookup f with | some (some t) => [t] | _ => []
+    let st := Session.run env diag 10000 disk ops
+    match st.db with
+    | none => "PANIC"
+    | some db =>
+      let files := (db.files.toArray.qsort (· < ·)).toList
+      let paths := ((diskL.map (·.1)) ++ (ops.map (·.1))).eraseDups.toArray.qsort (· < ·) |>.toList
+      let views := paths.map fun p => match st.view p with
+        | some pb => s!"{p}={pb.diags}@{pb.version}" | none => s!"{p}=-"
+      s!"files={files} view: {" ".intercalate views} version={st.version}"
+  | _ => "bad-args"
+
 def dispatch (cmd rest : String) : String :=
   match cmd with
   | "lex" => match payload rest with | some s => cmdLex s | none => "bad-utf8"
@@ -198,6 +226,7 @@ def dispatch (cmd rest : String) : String :=
   | "symmap" => cmdSymmap rest
   | "host" => cmdHost rest
   | "sched" => cmdSched rest
+  | "session" => cmdSession rest
   | _ => s!"bad-cmd {cmd}"
 
 partial def loop (h : IO.FS.Stream) (out : IO.FS.Stream) : IO Unit := do
